@@ -463,7 +463,7 @@ class Ctx:
     def __init__(self, prop: str, tier: str, seed: int):
         self.prop, self.tier, self.seed = prop, tier, seed
         self.rng = random.Random(seed)
-        self.work = WORK / prop
+        self.work = WORK / f'{prop}-{os.getpid()}'   # unique per run: concurrent checks of one property do not interfere
         if self.work.exists():
             shutil.rmtree(self.work, ignore_errors=True)
         self.work.mkdir(parents=True, exist_ok=True)
